@@ -108,7 +108,7 @@ def main(tier, seed, args):
             name = 'scenario[%d htlcs,%s invoice%s]' % (n, 'amountless' if amountless else 'fixed-amount', '+amount tlv' if with_tlv else '')
             cov = Coverage(['pay'])
             sc = scen_common.ScenarioWithPc(c, cfg, [PayBudgetMonitor(amountless), cov], pc)
-            ex = run_explorer(rep, c, sc, name, max_states=300000, max_depth=600, time_budget=(100 if tier == 'quick' else 1500))
+            ex = run_explorer(rep, c, sc, name, max_states=300000, max_depth=600, time_budget=(400 if tier == 'quick' else 3000))
             scen_common.report(rep, PID, name, ex, sc)
             if cov.missing() and not ex.violations:
                 rep.inconclusive.append('%s: vacuity guard: never reached %s' % (name, cov.missing()))
